@@ -5,6 +5,9 @@ HERE = os.path.dirname(os.path.dirname(os.path.abspath(__file__)))
 ALL = ["C%02d" % i for i in range(1, 21)]
 HYD_NOTE = "Trusted: TLC; Dec.tla exact decimal arithmetic (self-tested by setup); recorded floats are logged at their shortest round-trip decimal; tolerances derived from the solver criterion max|residual| < 1e-6 with factor 2; non-converged runs are counted, not asserted."
 CLAIMED = {
+ "C18": dict(cat="model_checking", tech="TLA+ definition of segments as connected components of the link-node incidence graph minus valves (Segments.tla); TLC enumerates all small multigraphs x valve layers and the real functions are compared label-independently",
+   text="Segments.tla defines the partition and the valve attributes (surrounding valves, demand / length increase as exact rationals). TLC checks the partition lemmas and enumerates every multigraph with <= 3 nodes / 3 links (4 / 4 thorough) incl. parallel links, dead ends and isolated nodes, with every subset of link-node incidences as valve layer and an optional duplicated row; valve_segments and valve_segment_attributes must give positive labels, exactly the specified blocks, correct sizes and attributes.",
+   note="Trusted: TLC. Exhaustive inside the stated scope only.", ref="DESIGN.md section 5 C18"),
  "C15": dict(cat="model_checking", tech="TLC trace validation of aml.Model evaluation events against exact rational evaluation and symbolic differentiation (Aml.tla); TLC model checking of leaf reference counting (AmlReg.tla)",
    text="Aml.tla defines Eval and the partial derivative of expression trees (+ - * / ** neg abs sign, if/else, inequalities, conditional constraints) in exact rational arithmetic, with transcendental functions and non-integer powers uninterpreted (table checked to be taken at the spec's own argument). Seeded random histories on a real aml.Model (extension rebuilt from source) build square systems with reflected operators, constant folding cases, nested powers, shared sub-expressions and boundary values, evaluate, replace constraints and change values; TLC judges every evaluation event: residuals, every Jacobian entry, index bijections, live variables. AmlReg.tla: TLC checks refcount = number of referencing constraints over all register/remove histories in scope.",
    note="Trusted: TLC, Dec.tla; libm values of exp/log/sin/cos/tan/asin/acos/atan and non-integer powers at a point.", ref="DESIGN.md section 5 C15"),
